@@ -97,3 +97,38 @@ _M = [(0, 0), (1, 0), (0, 1), (1, 1)]
 for _a0, _a1 in itertools.product(_M, _M):
   for _b0, _b1 in (((1, 0), (1, 0)), ((0, 1), (1, 0)), ((1, 1), (0, 0))):
     _mk(_a0, _a1, _b0, _b1)
+
+
+# ---- three consecutive calls (added 2026-09-25 after seeded change C06_8 stopped updating the cached mask when an fd is
+# modified: the stale cache only shows in the call AFTER the next one - read wait, write wait added, read wait ends)
+
+def _mk3(seq):
+  def u(b):
+    A = b.raw_new(Fd, fd=3)
+    B = b.raw_new(Fd, fd=4)
+    ep = b.raw_new(EpollStub, masks=b.dict({}), events=[])
+    es = b.raw_new(EpollSelect, epoll=ep, fd_to_obj=b.dict({}), registered=b.dict({}), lastrl=b.list([]), lastrl_set=b.set_of([]),
+                   lastwl=b.list([]), lastwl_set=b.set_of([]))
+    def run(es):
+      out = []
+      for a in seq:
+        es.select([x for x, m in ((A, a[0]), (B, 1)) if m], [x for x, m in ((A, a[1]), (B, 0)) if m], [], 0)
+        out.append(dict(ep.masks))
+      return out
+    def expected(a):
+      d = {4: want_mask(1, 0)}
+      if want_mask(*a):
+        d[3] = want_mask(*a)
+      return d
+    return Case(run, [es], raises={}, ensures={
+      "after_every_call_the_registration_is_the_interest_set_of_that_call":
+        lambda res: len(res) == len(seq) and all([r == expected(a) for r, a in zip(res, seq)]),
+    })
+  name = lambda m: "".join("rw"[i] if x else "-" for i, x in enumerate(m))
+  u.__name__ = "epoll_registration_over_three_calls_A_" + "_".join(name(a) for a in seq)
+  u.bound = "two descriptors, three consecutive calls"
+  unit(P, target=MOD + "EpollSelect.select")(u)
+
+
+for _s in itertools.product(_M, _M, _M):
+  _mk3(_s)
